@@ -581,12 +581,22 @@ pub fn f_push(seed: u64, exhaustive_scripts: bool) -> Plan {
         if rng.chance(300) {
             attrs.insert("x-goog-version".to_string(), "v1".to_string());
         }
-        setup.push(Step::new(Op::CreateSub {
+        let mut create = Step::new(Op::CreateSub {
             sub: name.clone(),
             topic: topic.clone(),
             ack_deadline: dl,
             push: Some(PushSpec { endpoint: format!("http://push-{j}.test/hook"), attrs, oidc: if rng.chance(200) { Some(("aud".into(), "sa@example.test".into())) } else { None } }),
-        }));
+        });
+        // the client that creates the push subscription may go away before it is answered; if the
+        // subscription exists afterwards (the GetSubscription tells), it is a push subscription like any other
+        let abandoned = rng.chance(120);
+        if abandoned {
+            create.abandon_at = rng.range(1, 3) as u32;
+        }
+        setup.push(create);
+        if abandoned {
+            setup.push(Step::after(rng.below(2_000), Op::GetSub { sub: name.clone() }));
+        }
         push_subs.push(name);
     }
     // pull subscriptions on the same topic as controls (must never be POSTed to)
